@@ -64,7 +64,7 @@ claim('C17', 'other',
       "Decides the statement through its only possible causes in code of this shape: every scalar member of every FFSM2 "
       "record is definitely initialised by every constructor; hand-written copy/move constructors copy every base and "
       "member from the same base/member; copy/move construction of an automatically activated machine cannot reach "
-      "initialEnter; no mutable static state and no non-deterministic external call. No value depends on an address (no pointer<->integer casts, pointer ordering or identity tests other than null, C17.e); user bases of states are covered by the copy rule; hand-written copies of the bit array are decided bit by bit for every capacity (C20.e refinement); copy/move operations leave their source untouched (C17.f); a member copied in the constructor body counts only if it is definitely assigned from the same member on every path. Equality of two executions as such "
+      "initialEnter; no mutable static state and no non-deterministic external call. No value depends on an address (no pointer<->integer casts, pointer ordering or identity tests other than null, C17.e); user bases of states are covered by the copy rule; hand-written copies of the bit array are decided bit by bit for every capacity (C20.e refinement); copy/move operations leave their source untouched (C17.f); a member copied in the constructor body counts only if it is definitely assigned from the same member on every path; save() clears the whole buffer before its first write, so the serialized form does not depend on what the buffer held (C17.g = C12.a). Equality of two executions as such "
       "is not decided.",
       "Trusted: clang's constructor-initialiser lists incl. implicit ones; witnesses w_core/w_pay instantiate every class.",
       "definite-initialisation and copy-coverage rules over record/constructor facts + call-graph reachability",
@@ -75,7 +75,7 @@ claim('C01', 'other',
       "automaton) of every entry point that can reach a dispatcher (update, react, immediate*, replay*, load, enter/exit, "
       "constructors, destructor; both activation modes; all witness machines) shows enter/exit/reenter pairing, root before/"
       "after, dispatch only to the active state and the activity invariant at return; who-may-call and who-may-write rules "
-      "close the induction; no control flavour can write the registry. The load rule's precondition (the index read was written by save()) is discharged by the save/load field-table and clear-before-write obligations (C01.f). Deactivation resets (final exit, destructor) are writers of the activity state and are part of the who-may-write table (C01.b). Copy/move construction and assignment write only the object they initialise: the machine copied or moved from keeps its registry (C01.g).",
+      "close the induction; no control flavour can write the registry. The load rule's precondition (the index read was written by save()) is discharged by the save/load field-table and clear-before-write obligations (C01.f). Deactivation resets (final exit, destructor) are writers of the activity state and are part of the who-may-write table (C01.b). Copy/move construction and assignment write only the object they initialise: the machine copied or moved from keeps its registry (C01.g). The dispatch primitive is a correct binary search step in every dispatcher of every callback kind (C01.h = C14.b).",
       "Assumes A1-A3 (callbacks act only through their control, do not re-enter the API, preconditions respected). Machine "
       "size is abstracted by the dispatch primitive, whose correctness for every size is C14.",
       "finite-domain abstract interpretation (typestate) + call-graph / effect-set rules",
@@ -86,7 +86,7 @@ claim('C02', 'other',
       "request only in the guarded loops. Order rules: processing last. Must-equality dataflow through processRequest / "
       "initialEnter: the state entered/re-entered is the destination of the transition shown to enter() as current, which is a "
       "whole copy of the pending transition of a round whose guards did not cancel; nothing survives => no callback, same active "
-      "state; requested is invalid at return. Comparison-domain evaluation of the de-duplication test; the request comparison spans every payload byte for payload types of 1..300 bytes (memcmp size / counted byte loop whose counter cannot wrap). Only the four request writers and request processing write the request slot (C02.g); each writer replaces the whole request through the assignment operator of the request's own type. Processing continues up to the configured substitution limit and stops no earlier (C02.h, shares C04.a); after the substitution loop nothing on the way to the return writes the request slot, so a request left over by the limit is carried to the next processing point (C02.i).",
+      "state; requested is invalid at return. Comparison-domain evaluation of the de-duplication test; the request comparison spans every payload byte for payload types of 1..300 bytes (memcmp size / counted byte loop whose counter cannot wrap). Only the four request writers and request processing write the request slot (C02.g); each writer replaces the whole request through the assignment operator of the request's own type. Processing continues up to the configured substitution limit and stops no earlier (C02.h, shares C04.a); after the substitution loop nothing on the way to the return writes the request slot, so a request left over by the limit is carried to the next processing point (C02.i); the guard wrappers report a cancellation made by any callback they run, injected guards included (C02.j = C03.e).",
       "Assumes A1-A3; guards are unknown booleans, callbacks havoc exactly the computed effect set of their control flavour.",
       "effect sets + CFG order rules + must-equality abstract interpretation + comparison-domain evaluation of the branch conditions that control a guard round (located by control dependence)",
       "DESIGN.md section 4 C02")
@@ -154,7 +154,7 @@ claim('C08', 'other',
       "is active, firing only under the success test of the same iterator and with the task origin as caller, remove after fire, "
       "exactly-once success consumption, deferred consumption after the scan; who-may-call and position of the plan step; the leaf "
       "status mapping on its truth table, maxima for the status operators; exhaustive comparison-domain evaluation of the scan's "
-      "activity predicate (origin 0 included); sibling agreement of the two specialisations (also as call sequences, C08.f); on effect summaries succeed(id)/fail(id) set exactly the bit of id and the cycle result, the parameterless forms report for the calling state -- decided per decision path under the precondition 'valid state id', also on machines whose task capacity differs from the state count (C08.h); clearTaskStatus clears both bits of its id unconditionally (C08.e); the plan-exists gate is set by append and cleared by the full reset only (C08.g) and the per-cycle status is reset after the plan step on every path (C08.i); order across plan edits shares the link/unlink/iterator summaries of C10 (C08.j); a full reset forgets the task links too (C08.k = C09.f).",
+      "activity predicate (origin 0 included); sibling agreement of the two specialisations (also as call sequences, C08.f); on effect summaries succeed(id)/fail(id) set exactly the bit of id and the cycle result, the parameterless forms report for the calling state -- decided per decision path under the precondition 'valid state id', also on machines whose task capacity differs from the state count (C08.h); clearTaskStatus clears both bits of its id unconditionally (C08.e); the plan-exists gate is set by append and cleared by the full reset only (C08.g) and the per-cycle status is reset after the plan step on every path (C08.i); order across plan edits shares the link/unlink/iterator summaries of C10 (C08.j); a full reset forgets the task links too (C08.k = C09.f); a fired task's request replaces the whole request slot, payload included (C08.l = C02.a).",
       "The order in which tasks are visited relies on the plan list (C10 residue). Assumes A1-A3.",
       "CFG dominance / control-dependence rules + comparison-domain evaluation + sibling agreement",
       "DESIGN.md section 4 C08")
@@ -165,7 +165,7 @@ claim('C09', 'other',
       "is gated by planExists whose only writers are append (true) and clear (false); definite initialisation of every scalar "
       "member makes the outcome independent of the memory the instance is built in; failure priority table; the per-cycle status "
       "accumulators are reset on every path after the plan step; PlanDataT::clear(), deactivation and load definitely reset the whole "
-      "plan state (no task, report or plan-exists flag survives; PlanT::clear decided path-complete on effect summaries, C09.a); what a status report writes is decided on effect summaries (C09.g).",
+      "plan state (no task, report or plan-exists flag survives; PlanT::clear decided path-complete on effect summaries, C09.a); what a status report writes is decided on effect summaries (C09.g); leaving a state clears both of its status bits whether or not a plan exists (C09.h = C08.e).",
       "Assumes A1-A3.",
       "CFG control-dependence rules + who-may-call + definite-initialisation rule + must-write analysis (whole-array loops write every element)",
       "DESIGN.md section 4 C09")
@@ -175,7 +175,7 @@ claim('C10', 'other',
       "nothing written, INVALID returned; recycle / grow by one inside the array / last slot), remove a push; PlanT::linkTask "
       "appends at the tail, PlanT::remove unlinks exactly the given node in all four neighbour situations and releases its slot; "
       "the three plan iterators cache the successor before the current task can be removed, advance to it and agree; capacity "
-      "tests in append; the configured task capacity survives every order of the configuration setters (C10.h, type-level) and is the capacity of the pool; side arrays are at least as long (C10.i). Integrity of the intrusive lists over every history and capacity (the inductive invariant the per-operation "
+      "tests in append; the configured task capacity survives every order of the configuration setters (C10.h, type-level) and is the capacity of the pool; side arrays are at least as long (C10.i); clearing a plan walks the whole list, reading each successor before the removal (C10.j = C09.a). Integrity of the intrusive lists over every history and capacity (the inductive invariant the per-operation "
       "facts would have to be composed with) is NOT decided.",
       "Residue: list shape invariant over histories (relational shape analysis or state enumeration = another family). The "
       "summaries assume a node is never its own neighbour (that invariant).",
